@@ -102,6 +102,10 @@ def cases(draw, max_n=80):
         case["init_batch"] = case["n"] + draw(st.integers(1, 5))
     elif k == 1:
         case["init_batch"] = None
+    elif k == 2:
+        # a budget larger than the library: the library size is what limits the run
+        case["max_prior"] = case["n"] + draw(st.integers(1, 60))
+        case["init_batch"] = draw(st.one_of(st.integers(1, case["n"]), st.integers(case["n"] + 1, case["max_prior"])))
     return case
 
 
